@@ -7,7 +7,8 @@
 (*   Inject: one invalidity injection (terminal)                           *)
 (* Laws checked by TLC on the specification itself:                        *)
 (*   StaysValid        the construction machine never leaves Valid         *)
-(*   InjectionInvalid  every injection exhibits its defect class           *)
+(*   InjectionInvalid  every injection exhibits its defect class (class "":*)
+(*                     the file is valid)                                  *)
 (*   ViewsConsistent   Views(file) satisfies the C36 view laws             *)
 (*   NormalForm        Normal is idempotent and does not change Views;     *)
 (*                     AllowUnresolvable is irrelevant for a valid file    *)
@@ -35,7 +36,8 @@ Next == Build \/ Inject
 
 StaysValid == defect = NoDefect => Valid(file, FALSE)
 InjectionInvalid == defect # NoDefect =>
-                      IF defect.class \in UnresolvableClasses THEN defect.class \in Defects(file, FALSE)
+                      IF defect.class = "" THEN Valid(file, FALSE) /\ Valid(file, TRUE)     \* a position case whose ranges are apart
+                      ELSE IF defect.class \in UnresolvableClasses THEN defect.class \in Defects(file, FALSE)
                       ELSE defect.class \in Defects(file, TRUE) /\ Defects(file, FALSE) # {}
 ViewsConsistent == defect = NoDefect => ViewLaws(Views(file, FALSE))
 NormalForm == defect = NoDefect =>
